@@ -1,0 +1,27 @@
+//go:build verif
+
+// Verification hooks (build tag `verif` only, add-only): load the network configuration from JSON text the
+// way Init does (without docker and the port-mapping handler) and resolve a pod's networks the way a CNI
+// ADD request does, so that a harness can feed arbitrary pod annotations to the real resolveNetworks.
+package galaxy
+
+import (
+	"encoding/json"
+
+	corev1 "k8s.io/api/core/v1"
+	galaxyapi "tkestack.io/galaxy/pkg/api/galaxy"
+)
+
+// VerifLoadConf decodes the JSON configuration and checks it as Init does.
+func (g *Galaxy) VerifLoadConf(data []byte) error {
+	if err := json.Unmarshal(data, &g.JsonConf); err != nil {
+		return err
+	}
+	return g.checkNetworkConf()
+}
+
+// VerifResolveNetworks is resolveNetworks; it returns the number of networks resolved.
+func (g *Galaxy) VerifResolveNetworks(req *galaxyapi.PodRequest, pod *corev1.Pod) (int, error) {
+	infos, err := g.resolveNetworks(req, pod)
+	return len(infos), err
+}
